@@ -167,7 +167,8 @@ impl ObjectWrite for ColorSpace {
                 let lookup = if lookup.len() < 100 {
                     PdfString::new((**lookup).into()).into()
                 } else {
-                    Stream::new((), lookup.clone()).to_primitive(update)?
+                    // a stream cannot be a direct object: store it and refer to it
+                    update.create(Stream::new((), lookup.clone()))?.to_primitive(update)?
                 };
                 Ok(Primitive::Array(vec![Primitive::name("Indexed"), base, hival, lookup]))
             }
